@@ -100,6 +100,7 @@ static char *gen_request (void)
     if (c < 600) {                                   /* multiply */
         gen_matrix (m); gen_matrix (m + 9);
         if (rng_chance (25)) { /* entry near the int32 limit: l00*r00 ~ +-2^47 */ int k = rng_range (8, 30); m[0] = (int32_t) (1u << k) + rng_range (-1, 1); int64_t t = (((int64_t) 1 << 47) / m[0]) + rng_range (-2, 2); m[9] = clamp32 (rng_chance (50) ? t : -t); if (rng_chance (50)) { m[1] = m[2] = 0; } }
+        if (rng_chance (20)) return fmt_line ("f_mul", m, 18, x, 0);     /* the double entry point on the same operands: rational model + 4u bound */
         return fmt_line ("mul", m, 18, x, 0);
     }
     if (c < 640) {
@@ -110,7 +111,7 @@ static char *gen_request (void)
         char buf[1024]; int k = rng_n (3); int hf = rng_chance (75), hr = rng_chance (75);
         gen_matrix (m); gen_matrix (m + 9);
         if (rng_chance (40)) { for (int i = 0; i < 18; i++) m[i] = 0; m[0] = m[4] = m[8] = m[9] = m[13] = m[17] = 65536; }
-        int n = sprintf (buf, "%s", k == 0 ? "scale" : k == 1 ? "rotate" : "translate");
+        int n = sprintf (buf, "%s%s", rng_chance (25) ? "f_" : "", k == 0 ? "scale" : k == 1 ? "rotate" : "translate");
         n = put_opt (buf, n, hf, m); n = put_opt (buf, n, hr, m + 9);
         int32_t a = pick_fixed (), b = pick_fixed ();
         if (k == 0 && rng_chance (30)) { a = rng_range (-4, 4); }
@@ -129,7 +130,10 @@ static char *gen_request (void)
     if (c < 900) {
         int k = rng_n (4);
         for (int i = 0; i < 18; i++) m[i] = 0; m[0] = m[4] = m[8] = m[9] = m[13] = m[17] = 65536;
-        int n = rng_n (5); while (n--) { int i = rng_n (18); m[i] = rng_chance (60) ? m[i] + rng_range (-4, 4) : pick_fixed (); }
+        if (rng_chance (35)) { /* a common diagonal other than 1.0 (the identity test is projective), each entry within the tolerance or just outside */
+            int32_t d = rng_chance (50) ? pick_fixed () : rng_range (-6, 6); for (int q = 0; q < 18; q += 9) for (int i = 0; i < 3; i++) m[q + i * 4] = clamp32 ((int64_t) d + rng_range (-3, 3)); }
+        if (rng_chance (40)) { /* every off-diagonal entry at the tolerance: -3..3 */ for (int i = 0; i < 18; i++) if ((i % 9) % 4) m[i] = rng_range (-3, 3); }
+        int n = rng_n (5); while (n--) { int i = rng_n (18); m[i] = rng_chance (60) ? clamp32 ((int64_t) m[i] + rng_range (-4, 4)) : pick_fixed (); }
         if (k == 3) { if (rng_chance (50)) { m[2] = rng_range (-50, 50) * 65536; m[5] = rng_range (-50, 50) * 65536; m[11] = -m[2] + rng_range (-1, 1) * rng_n (4); m[14] = -m[5]; } return fmt_line ("is_inverse", m, 18, x, 0); }
         if (k == 2 && rng_chance (60)) { m[2] = rng_range (-50, 50) * 65536 + (rng_chance (50) ? rng_range (-4, 4) : 0); m[5] = pick_fixed (); }
         return fmt_line (k == 0 ? "is_identity" : k == 1 ? "is_scale" : "is_int_translate", m, 9, x, 0);
@@ -170,7 +174,12 @@ static char *gen_request (void)
             else gen_matrix (m);
             return fmt_line (k < 35 ? "invert" : "f_invert", m, 9, x, 0);
         }
-        if (k < 50) { char buf[64]; double d; int s = rng_n (6);
+        if (k < 50) { char buf[64]; double d; int s = rng_n (9);
+            if (s >= 6) { /* binary64 edge cases of v*65536+0.5: neighbours of ties, of the range limits, of powers of two; subnormals. (the double just below 0.5/65536, repaired in 50296f6, included) */
+                if (s == 6) { int64_t kk = rng_chance (50) ? rng_range (-70000, 70000) : (int64_t) pick_fixed (); d = ((double) kk + 0.5) / 65536.0; int n = rng_n (4); double dir = rng_chance (50) ? INFINITY : -INFINITY; while (n--) d = nextafter (d, dir); }
+                else if (s == 7) { static const double lim[] = { 32767.0, -32767.0, 32768.0, -32768.0, 32767.5, 0.5 / 65536.0 * 0 + 1.0 / 65536.0 }; d = lim[rng_n (6)]; int n = rng_n (3); double dir = rng_chance (50) ? INFINITY : -INFINITY; while (n--) d = nextafter (d, dir); }
+                else { uint64_t b = rng_u64 (); if (rng_chance (50)) b &= 0x800fffffffffffffULL | ((uint64_t) rng_n (40) << 52); else { b &= 0x800fffffffffffffULL; b |= (uint64_t) (1023 - 70 + rng_n (90)) << 52; } memcpy (&d, &b, 8); }
+                uint64_t u; memcpy (&u, &d, 8); sprintf (buf, "f_from %llu", (unsigned long long) u); return strdup (buf); }
             if (s == 0) d = (double) pick_fixed () / 65536.0; else if (s == 1) d = ((double) pick_fixed () + (rng_chance (50) ? 0.5 : (double) rng_n (1000) / 1000.0)) / 65536.0;
             else if (s == 2) d = (rng_chance (50) ? 1 : -1) * (32767.0 + (double) rng_range (-3, 70000) / 65536.0); else if (s == 3) d = (double) rng_range (-40000, 40000) + (double) rng_n (65536) / 65536.0;
             else if (s == 4) d = (double) (int64_t) rng_u64 () / 4294967296.0 / 65536.0; else d = (double) rng_range (-1000000, 1000000) / 4096.0 / 65536.0;
